@@ -63,8 +63,8 @@ def step(draw):
                  purity=draw(st.sampled_from([None, 0.6])), variants=draw(st.booleans()), male_ref=draw(st.booleans()),
                  female=draw(st.booleans()))
     elif op == "genemetrics":
-        s.update(segments=draw(st.booleans()), threshold=draw(st.sampled_from([0.1, 0.3])), min_probes=draw(st.sampled_from([1, 3])),
-                 skip_low=draw(st.booleans()), female=draw(st.sampled_from([None, True, False])))
+        s.update(segments=draw(st.booleans()), rich=draw(st.booleans()), threshold=draw(st.sampled_from([0.1, 0.3])), min_probes=draw(st.sampled_from([1, 3])),
+                 skip_low=draw(st.booleans()), female=draw(st.sampled_from([None, None, True, False])))
     elif op == "breaks":
         s.update(min_probes=draw(st.sampled_from([1, 2])))
     elif op == "bintest":
@@ -110,8 +110,10 @@ def build_ws(seed):
     from skgenome import GenomicArray as GA
 
     rng = np.random.default_rng(seed)
+    # an autosome-only panel on a third of the workspaces: no chrX bin to infer the sample sex from
+    CHR = ("chr1", "chr2", "chr3") if seed % 3 == 0 else ("chr1", "chr2", "chrX")
     tb, ab = [], []
-    for c in ("chr1", "chr2", "chrX"):
+    for c in CHR:
         pos = 200000
         level = 0.0
         for g in range(int(rng.integers(4, 8))):
@@ -124,7 +126,7 @@ def build_ws(seed):
             ab.append((c, pos + 600, pos + 20600, "Antitarget", level))
             pos += 22000
     baits = GA(pd.DataFrame([(c, s, e, g) for c, s, e, g, _l in tb], columns=["chromosome", "start", "end", "gene"]), {"sample_id": "baits"})
-    access = GA(pd.DataFrame([(c, 0, max(x[2] for x in ab if x[0] == c) + 50000) for c in ("chr1", "chr2", "chrX")],
+    access = GA(pd.DataFrame([(c, 0, max(x[2] for x in ab if x[0] == c) + 50000) for c in CHR],
                              columns=["chromosome", "start", "end"]), {"sample_id": "access"})
 
     def cov(rows, sid, noise):
@@ -137,7 +139,7 @@ def build_ws(seed):
 
     tcov, acov = cov(tb, "samp", 0.15), cov(ab, "samp", 0.1)
     n = len(tb) + len(ab)
-    allb = sorted(tb + ab, key=lambda r: (["chr1", "chr2", "chrX"].index(r[0]), r[1]))
+    allb = sorted(tb + ab, key=lambda r: (CHR.index(r[0]), r[1]))
     # GC values with many ties: the bias corrections then depend on their (seeded) tie-breaking shuffle
     gcs = np.round(0.32 + 0.36 * (rng.permutation(n) + 0.5) / n, 2)
     rms = (rng.permutation(n) + 0.5) / n
@@ -148,7 +150,7 @@ def build_ws(seed):
     cnr.meta = {"sample_id": "samp"}
     # hand-cut segments: 2-3 per chromosome at bin edges
     segs = []
-    for c in ("chr1", "chr2", "chrX"):
+    for c in CHR:
         sub = cnr.data[cnr.data.chromosome == c].reset_index(drop=True)
         cuts = sorted(set([0, len(sub)] + [int(x) for x in rng.integers(3, len(sub) - 3, size=2)]))
         for a, b in zip(cuts, cuts[1:]):
@@ -241,7 +243,9 @@ def execute(s, ws, procs_override=None):
     if op == "call":
         return call.do_call(ws["cns_m"], ws["varr"] if s["variants"] else None, s["method"], 2, s["purity"], s["male_ref"], s["female"], None, ws[s["filters"]])
     if op == "genemetrics":
-        return reports.do_genemetrics(ws["cnr"], ws["cns"] if s["segments"] else None, s["threshold"], s["min_probes"], s["skip_low"], False, s["female"])
+        # segments: none, the plain table, or the one carrying extra columns (ci_lo, ci_hi, sem) as call/segmetrics leave it
+        segs = None if not s["segments"] else ws["cns_m"] if s.get("rich") else ws["cns"]
+        return reports.do_genemetrics(ws["cnr"], segs, s["threshold"], s["min_probes"], s["skip_low"], False, s["female"])
     if op == "breaks":
         return reports.do_breaks(ws["cnr"], ws["cns"], s["min_probes"])
     if op == "bintest":
